@@ -1,13 +1,13 @@
 package smt
 
 import (
-	"strconv"
 	"bufio"
 	"fmt"
 	"io"
 	"math/big"
 	"os"
 	"os/exec"
+	"strconv"
 	"strings"
 	"time"
 )
@@ -92,7 +92,7 @@ var ufWindow = func() int {
 
 type ufApp struct {
 	op, name, a, b string
-	level       int
+	level          int
 }
 
 func NewSolver(ctx *Ctx, cmd []string) (*Solver, error) {
